@@ -203,6 +203,45 @@ func (s *NumRangeShard) EqualStart(key interface{}, index int) bool {
 	return s.Shards[index].Start == v
 }
 
+const (
+	periodYear = iota
+	periodMonth
+	periodDay
+)
+
+// isPeriodStart reports whether key is the first instant of its year, month or day.
+// Only then "col < key" cannot match a row of the sub table that key belongs to.
+func isPeriodStart(key interface{}, period int) bool {
+	var tm time.Time
+	switch val := key.(type) {
+	case int:
+		tm = time.Unix(int64(val), 0)
+	case uint64:
+		tm = time.Unix(int64(val), 0)
+	case int64:
+		tm = time.Unix(val, 0)
+	case string:
+		var err error
+		if tm, err = time.ParseInLocation("2006-01-02 15:04:05", val, time.Local); err != nil {
+			if tm, err = time.ParseInLocation("2006-01-02", val, time.Local); err != nil {
+				return false
+			}
+		}
+	default:
+		return false
+	}
+	if tm.Hour() != 0 || tm.Minute() != 0 || tm.Second() != 0 || tm.Nanosecond() != 0 {
+		return false
+	}
+	switch period {
+	case periodYear:
+		return tm.Month() == time.January && tm.Day() == 1
+	case periodMonth:
+		return tm.Day() == 1
+	}
+	return true
+}
+
 type DateYearShard struct {
 }
 
@@ -241,7 +280,7 @@ func (s *DateYearShard) EqualStart(key interface{}, index int) bool {
 		return false
 	}
 
-	return numYear == index
+	return numYear == index && isPeriodStart(key, periodYear)
 }
 
 type DateMonthShard struct {
@@ -302,7 +341,7 @@ func (s *DateMonthShard) EqualStart(key interface{}, index int) bool {
 		return false
 	}
 
-	return numYear == index
+	return numYear == index && isPeriodStart(key, periodMonth)
 }
 
 type DateDayShard struct {
@@ -363,7 +402,7 @@ func (s *DateDayShard) EqualStart(key interface{}, index int) bool {
 		return false
 	}
 
-	return numYear == index
+	return numYear == index && isPeriodStart(key, periodDay)
 }
 
 type DefaultShard struct {
